@@ -219,9 +219,116 @@ mod verif_bounded {
 }
 '''
 
+CONFIG_MOD = r'''
+#[cfg(test)]
+mod verif_bounded_cfg {
+    use super::*;
+    use std::str::FromStr;
+
+    fn report(kind: &str, detail: String) { println!("VERIF-BOUNDED-FAIL {} :: {}", kind, detail); }
+
+    /// every upper/lower-case spelling of a word
+    fn casings(w: &str) -> Vec<String> {
+        let cs: Vec<char> = w.chars().collect();
+        (0u32..(1u32 << cs.len())).map(|m| cs.iter().enumerate().map(|(i, c)| if m & (1 << i) != 0 { c.to_ascii_uppercase() } else { *c }).collect()).collect()
+    }
+    /// strings that are not option values: every word of the *other* tables, and for every word one character dropped, one appended,
+    /// surrounding blanks, the empty string
+    fn near_misses(own: &[&str], all: &[&str]) -> Vec<String> {
+        let mut v: Vec<String> = vec!["".into(), " ".into(), "0".into(), "true".into(), "yes".into()];
+        for w in all { if !own.contains(w) { v.push(w.to_string()); } }
+        for w in own {
+            for i in 0..w.len() { let mut t = w.to_string(); t.remove(i); if !own.contains(&t.as_str()) { v.push(t); } }
+            for c in ["s", "x", "1", " ", "-"] { v.push(format!("{}{}", w, c)); v.push(format!("{}{}", c, w)); }
+        }
+        v
+    }
+    const ALL: [&str; 9] = ["always", "auto", "never", "none", "off", "numbered", "parfile", "parblock", "simple"];
+
+    #[test]
+    fn bounded_parse_reflink() {
+        let table = [("always", Reflink::Always), ("auto", Reflink::Auto), ("never", Reflink::Never)];
+        let mut fails = 0; let mut cases = 0;
+        for (w, want) in table.iter() {
+            for s in casings(w) {
+                cases += 1;
+                if Reflink::from_str(&s).ok() != Some(*want) { fails += 1; if fails <= 5 { report("parse_reflink", format!("--reflink={:?} must mean {:?}, got {:?}", s, want, Reflink::from_str(&s).ok())); } }
+            }
+        }
+        let own: Vec<&str> = table.iter().map(|t| t.0).collect();
+        for s in near_misses(&own, &ALL) {
+            cases += 1;
+            if Reflink::from_str(&s).is_ok() { fails += 1; if fails <= 8 { report("reject_reflink", format!("--reflink={:?} is not a reflink mode but was accepted as {:?}", s, Reflink::from_str(&s).ok())); } }
+        }
+        println!("VERIF-BOUNDED-CASES {}", cases);
+        assert!(fails == 0, "{} failures", fails);
+    }
+
+    #[test]
+    fn bounded_parse_backup() {
+        let table = [("none", Backup::None), ("off", Backup::None), ("auto", Backup::Auto), ("numbered", Backup::Numbered)];
+        let mut fails = 0; let mut cases = 0;
+        for (w, want) in table.iter() {
+            for s in casings(w) {
+                cases += 1;
+                if Backup::from_str(&s).ok() != Some(*want) { fails += 1; if fails <= 5 { report("parse_backup", format!("--backup={:?} must mean {:?}, got {:?}", s, want, Backup::from_str(&s).ok())); } }
+            }
+        }
+        let own: Vec<&str> = table.iter().map(|t| t.0).collect();
+        for s in near_misses(&own, &ALL) {
+            cases += 1;
+            if Backup::from_str(&s).is_ok() { fails += 1; if fails <= 8 { report("reject_backup", format!("--backup={:?} is not a backup mode but was accepted as {:?}", s, Backup::from_str(&s).ok())); } }
+        }
+        println!("VERIF-BOUNDED-CASES {}", cases);
+        assert!(fails == 0, "{} failures", fails);
+    }
+}
+'''
+
+DRIVERS_MOD = r'''
+#[cfg(test)]
+mod verif_bounded_drv {
+    use super::*;
+    use std::str::FromStr;
+
+    fn report(kind: &str, detail: String) { println!("VERIF-BOUNDED-FAIL {} :: {}", kind, detail); }
+    fn casings(w: &str) -> Vec<String> {
+        let cs: Vec<char> = w.chars().collect();
+        (0u32..(1u32 << cs.len())).map(|m| cs.iter().enumerate().map(|(i, c)| if m & (1 << i) != 0 { c.to_ascii_uppercase() } else { *c }).collect()).collect()
+    }
+    fn name_of(d: &Drivers) -> String { format!("{:?}", d).to_lowercase() }
+
+    #[test]
+    fn bounded_parse_driver() {
+        let mut fails = 0; let mut cases = 0;
+        let mut words = vec!["parfile"];
+        if cfg!(feature = "parblock") { words.push("parblock"); }
+        for w in &words {
+            for s in casings(w) {
+                cases += 1;
+                let got = Drivers::from_str(&s).ok().map(|d| name_of(&d));
+                if got.as_deref() != Some(*w) { fails += 1; if fails <= 5 { report("parse_driver", format!("--driver={:?} must select {}, got {:?}", s, w, got)); } }
+            }
+        }
+        let mut bad: Vec<String> = vec!["".into(), " ".into(), "auto".into(), "simple".into(), "par".into(), "file".into(), "block".into(), "parfile ".into(), " parblock".into(), "parfiles".into(), "parblok".into(), "par-file".into(), "parfileparblock".into()];
+        if !cfg!(feature = "parblock") { bad.push("parblock".into()); }
+        for s in bad {
+            cases += 1;
+            if let Ok(d) = Drivers::from_str(&s) { fails += 1; if fails <= 8 { report("reject_driver", format!("--driver={:?} names no driver but selected {}", s, name_of(&d))); } }
+        }
+        println!("VERIF-BOUNDED-CASES {}", cases);
+        assert!(fails == 0, "{} failures", fails);
+    }
+}
+'''
+
+_CACHE = {}
+
 
 def backup_bounded():
     """returns dict(ok, cases, failures[], wall_s, bound)"""
+    if REPO in _CACHE:          # one run serves every property of an invocation
+        return _CACHE[REPO]
     wd = tempfile.mkdtemp(prefix='xcpverif-bnd-')
     t0 = time.time()
     try:
@@ -236,6 +343,10 @@ def backup_bounded():
                 shutil.copy(src, dst)
         with open(os.path.join(wd, 'libxcp', 'src', 'backup.rs'), 'a') as f:
             f.write(BACKUP_MOD)
+        with open(os.path.join(wd, 'libxcp', 'src', 'config.rs'), 'a') as f:
+            f.write(CONFIG_MOD)
+        with open(os.path.join(wd, 'libxcp', 'src', 'drivers', 'mod.rs'), 'a') as f:
+            f.write(DRIVERS_MOD)
         env = dict(os.environ, CARGO_NET_OFFLINE='true', CARGO_TARGET_DIR=os.path.join(wd, 'target'))
         p = subprocess.run(['cargo', 'test', '--offline', '-p', 'libxcp', '--lib', 'verif_bounded', '--', '--nocapture', '--test-threads', '1'],
                            cwd=wd, env=env, stdout=subprocess.PIPE, stderr=subprocess.STDOUT, text=True, timeout=1800)
@@ -244,15 +355,16 @@ def backup_bounded():
         ms = re.findall(r'VERIF-BOUNDED-CASES (\d+)', out)
         ran = re.search(r'test result: (\w+)\. (\d+) passed; (\d+) failed', out)
         res = {
-            'ok': p.returncode == 0 and not fails and ran is not None and ran.group(3) == '0' and ran.group(2) == '5',
+            'ok': p.returncode == 0 and not fails and ran is not None and ran.group(3) == '0' and ran.group(2) == '8',
             'built': ran is not None,
-            'failures': fails[:10],
+            'failures': fails[:40],
             'cases': sum(int(x) for x in ms) + 8 * 2010 + 8,
-            'bound': 'is_num_backup: 8 names (incl. non-UTF-8, prefix-like, one with a newline) x N in 1..=2000 plus 10 large N, 8 non-backup names; next number at the ends of the range: 2 names x all subsets of {0, 1, u64::MAX-1, u64::MAX}; 4 spellings of the destination (bare, ./, sub/, sub/../) x all subsets of {1,2,10}; 3 destinations reached through symbolic links (last component into another directory, into the same directory, a linked parent) x all subsets of {1,2,10}; '
+            'bound': 'option values (Reflink, Backup, Drivers FromStr): every upper/lower-case spelling of every table word maps to its variant; the words of the other tables, every word with one character dropped or one of {s,x,1,blank,-} prepended/appended, and "", " ", "0", "true", "yes" are rejected; is_num_backup: 8 names (incl. non-UTF-8, prefix-like, one with a newline) x N in 1..=2000 plus 10 large N, 8 non-backup names; next number at the ends of the range: 2 names x all subsets of {0, 1, u64::MAX-1, u64::MAX}; 4 spellings of the destination (bare, ./, sub/, sub/../) x all subsets of {1,2,10}; 3 destinations reached through symbolic links (last component into another directory, into the same directory, a linked parent) x all subsets of {1,2,10}; '
                      'next_backup_num/has_backup/get_backup_path: 2 names (one non-UTF-8) x all 1024 subsets, a name with a newline x 29 subsets, of existing numbers {1,2,9,10,11,99,100,101,205,1000}',
             'wall_s': round(time.time() - t0, 1),
             'tail': '' if ran is not None else out[-1500:],
         }
+        _CACHE[REPO] = res
         return res
     finally:
         shutil.rmtree(wd, ignore_errors=True)
